@@ -69,7 +69,7 @@ func c13Run(t *testing.T, s *sim.Scn) *sim.Outcome {
 	if p := sim.Bubble(t, func() { c13Body(t, s, o) }); p != nil {
 		msg := fmt.Sprint(p)
 		if msg == sim.BubbleAborted {
-			if raceLogSize() > before {
+			if raceLogSize() > before && strings.Contains(raceLogText(), "DATA RACE") {
 				o.Fail("C13/data-race", "C13/data-race/"+raceSite(raceLogText()), -1, raceLogText(), "no data race between the background activities")
 			} else {
 				o.Fail("C13/bubble-aborted", "", -1, msg, "the run completes")
@@ -81,7 +81,7 @@ func c13Run(t *testing.T, s *sim.Scn) *sim.Outcome {
 			o.Fail("C13/panic", "", -1, msg, "no panic")
 		}
 	}
-	if after := raceLogSize(); after > before && o.V == nil {
+	if after := raceLogSize(); after > before && o.V == nil && strings.Contains(raceLogText(), "DATA RACE") {
 		o.Fail("C13/data-race", "C13/data-race/"+raceSite(raceLogText()), -1, raceLogText(), "no data race between the background activities")
 	}
 	return o
